@@ -13,6 +13,28 @@ import time
 T = 30.0  # every wait is bounded
 
 
+def with_timeout(f, secs=60.0):
+    """run f() in a daemon thread; ("ok", value) | ("exc", exception) | ("timeout", None) -- a hung gateway must not hang the check"""
+    import threading
+
+    box = {}
+
+    def run():
+        try:
+            box["v"] = f()
+        except BaseException as e:  # noqa
+            box["e"] = e
+
+    th = threading.Thread(target=run, daemon=True)
+    th.start()
+    th.join(secs)
+    if th.is_alive():
+        return "timeout", None
+    if "e" in box:
+        return "exc", box["e"]
+    return "ok", box.get("v")
+
+
 def payload(i, size):
     """deterministic bytes of the given size containing every byte value"""
     base = bytes((j * 7 + i) % 256 for j in range(256))
